@@ -131,3 +131,44 @@ plan("C20", "exploration", [explorer("C20", watchdog=(1200, 10800))],
      "DESIGN.md §3 C20")
 
 RUNNERS = {}
+
+
+def worker(name, argv, build="native", shards=16, watchdog=(900, 7200), tiers=("quick", "thorough"), env=None, sanitizer=None, wrapper=None):
+    leg = {"name": name, "build": build, "argv": argv, "shards": shards,
+           "watchdog_s": {"quick": watchdog[0], "thorough": watchdog[1]}, "tiers": tiers}
+    if env:
+        leg["env"] = env
+    if sanitizer:
+        leg["sanitizer"] = sanitizer
+    if wrapper:
+        leg["wrapper"] = wrapper
+    return leg
+
+
+ASAN_ENV = {"ASAN_OPTIONS": "detect_leaks=0:abort_on_error=0:halt_on_error=1:exitcode=77:symbolize=1", "ASAN_SYMBOLIZER_PATH": "/usr/bin/llvm-symbolizer-14"}
+TSAN_ENV = {"TSAN_OPTIONS": "halt_on_error=1:exitcode=66:second_deadlock_stack=1"}
+
+plan("C11", "exploration",
+     [worker("native", ["kernels", "C11"]),
+      worker("asan", ["kernels", "C11", "--reps", "2"], build="asan", tiers=("thorough",), env=ASAN_ENV, sanitizer="asan"),
+      worker("miri", ["kernels", "C11", "--reps", "1", "--max-len", "70", "--offsets", "4", "--classes", "34"], build="miri", tiers=("thorough",), sanitizer="miri", watchdog=(3600, 3600))],
+     ["value ranges are chosen so that no f32 intermediate overflows (|x| <= 1e17) and underflow is covered by an absolute term; NaN/inf inputs are C20's",
+      "NEON code paths cannot run on this x86-64 host",
+      "a clean sanitizer run is not memory safety: red zones miss non-adjacent over-reads"],
+     "distances equal the metric's definition",
+     "All lengths 1..=300 x all 16 byte offsets x 8 value classes x 4 metrics through the public Distance functions on Leafs borrowed from exact-size heap buffers, every kernel (plain/SSE/AVX) directly through the hook, dispatch rule, symmetry, self-distance, range; thorough adds an ASan leg (over-read = report) and a Miri leg on the pure-Rust kernels.",
+     "f64 oracle with proven rounding bounds; host CPU features decide which kernels run",
+     "runtime monitoring: differential f64 oracle over kernel/Distance outputs + ASan/Miri on the SIMD kernels",
+     "DESIGN.md §3 C11, §4")
+
+plan("C12", "exploration",
+     [worker("native", ["bq", "C12"]),
+      worker("asan", ["bq", "C12", "--random", "40", "--exhaustive", "9"], build="asan", tiers=("thorough",), env=ASAN_ENV, sanitizer="asan"),
+      worker("miri", ["bq", "C12", "--random", "3", "--exhaustive", "4", "--max-dim", "130", "--e2e", "0"], build="miri", tiers=("thorough",), sanitizer="miri", watchdog=(3600, 3600))],
+     ["NEON conversion paths cannot run on this x86-64 host",
+      "BQ-Cosine goes through fl(sqrt(L))^2: equal patterns give |d| <= 4*2^-23 rather than exactly 0; Euclidean/Manhattan are required to be exactly 0"],
+     "binary quantisation keeps the sign pattern",
+     "Every dimension 1..=300; all 2^d sign patterns for d<=12 (14 thorough), hundreds of random ones beyond, hostile component representatives (+-0, NaNs, inf, subnormals); every conversion path incl. plain/SIMD through the hook; three quantised distances along chains of increasing Hamming distance; end-to-end through Writer/Reader. Thorough adds ASan and Miri legs on the codec.",
+     "exact integer oracle (Hamming counts)",
+     "runtime monitoring: exact sign-pattern oracle on codec paths and quantised distances + ASan/Miri on the codec",
+     "DESIGN.md §3 C12, §4")
